@@ -22,7 +22,7 @@ from fractions import Fraction
 import numpy as np
 
 PROP = 'C06'
-TARGETS = ['T6a', 'T6b', 'T6c', 'T6d', 'T6e', 'T6f', 'T6g', 'T6h', 'T6i', 'T6j', 'T6k', 'T6m', 'T6n', 'T6p', 'T6q', 'T6r']
+TARGETS = ['T6a', 'T6b', 'T6c', 'T6d', 'T6e', 'T6f', 'T6g', 'T6h', 'T6i', 'T6j', 'T6k', 'T6m', 'T6n', 'T6p', 'T6q', 'T6r', 'T6s']
 LEAN_MODULES = ['HdVerif.Props.C06']
 MODEL_MODULES = ['HdVerif.Model.PixelPipeline', 'HdVerif.Generated.T6g', 'HdVerif.Generated.T6i']
 NAMESPACE = 'HdVerif.C06'
